@@ -51,10 +51,10 @@ TMP = os.path.join(tlc.OUT, "tmp")
 
 
 # --------------------------------------------------------------- configurations
-def cfg_stats(depth, kinds="all"):
+def cfg_stats(depth, kinds="all", values=(1, 2)):
     """start/stop/record_stat histories: keys {a,b}, values 1-2, explicit or defaulted location"""
     return dict(
-        Kinds=tlc.Subst("K_" + kinds), Keys={"a", "b"}, Values={1, 2}, EpVals={7}, StepVals={9}, EpochSteps=set(),
+        Kinds=tlc.Subst("K_" + kinds), Keys={"a", "b"}, Values=set(values), EpVals={7}, StepVals={9}, EpochSteps=set(),
         StopVals={1, 2}, Intervals={1}, Ops={"StartEpisode", "StopEpisode", "RecordStat"}, MaxCalls=depth, TrackLoc=False, EMIT=False,
     )
 
@@ -524,11 +524,15 @@ def run(rep):
 
     try:
         # ---- 1. the model: properties on the bounded call graphs -----------------------
-        d_stats, d_cad1, d_cad2, d_mix = (4, 5, 4, 3) if quick else (5, 7, 5, 4)
+        d_stats, d_cad1, d_cad2, d_mix = (4, 5, 4, 3) if quick else (4, 7, 5, 4)
         _check(rep, cfg_stats(d_stats), f"stats histories (all members, <= {d_stats} calls)", "c20stats", cover_ops=["StartEpisode", "StopEpisode", "RecordStat"])
+        if not quick:
+            _check(rep, cfg_stats(5, values=(1,)), "stats histories, one value (all members, <= 5 calls)", "c20stats5")
         _check(rep, cfg_cadence(d_cad1), f"cadence key a, steps 0-9, I 1-4 (<= {d_cad1} calls)", "c20cad1", cover_ops=["StopEpisode", "DefineFrequency", "RecordEpochWith"])
-        c2 = cfg_cadence(d_cad2, keys=("a", "b"), steps=(0, 1, 3, 4, 8, 9), stops=(2,), ivs=(1, 2, 4)) if quick else cfg_cadence(d_cad2, keys=("a", "b"))
-        _check(rep, c2, f"cadence keys a,b (<= {d_cad2} calls" + (", steps {0,1,3,4,8,9}, I {1,2,4})" if quick else ")"), "c20cad2")
+        small = dict(steps=(0, 1, 3, 4, 8, 9), stops=(2,), ivs=(1, 2, 4))
+        _check(rep, cfg_cadence(d_cad2, keys=("a", "b"), **small), f"cadence keys a,b (<= {d_cad2} calls, steps {{0,1,3,4,8,9}}, I {{1,2,4}})", "c20cad2")
+        if not quick:
+            _check(rep, cfg_cadence(4, keys=("a", "b")), "cadence keys a,b, steps 0-9, I 1-4 (<= 4 calls)", "c20cad2f")
         _check(rep, cfg_mixed(d_mix), f"all calls interleaved (all members, <= {d_mix} calls)", "c20mix")
         # equivalence of the implementation's test on the whole bounded domain (initial state only)
         r = tlc.run("Logger", tlc.cfg_text(next="Stop", constants=cfg_cadence(1), invariants=["ImplEquivDomain"]), workers=1, tag="c20dom")
@@ -591,7 +595,7 @@ def run(rep):
 
         lap("binding_canary")
         # ---- 5. real orbax writes + restores on sampled behaviours of the cadence graphs ------
-        budget = 90 if quick else 420  # real checkpoint directories (~0.06 s each)
+        budget = 90 if quick else 300  # real checkpoint directories (~0.06 s each)
         writes = 0
         n_real = 0
         for name in ("cadence/all", "cadence2/all", "mixed/all"):
